@@ -18,6 +18,7 @@ mod props_c02;
 mod props_c03;
 mod props_c04;
 mod props_c07;
+mod props_c08;
 mod props_c09;
 mod props_c10;
 mod props_c16;
@@ -27,13 +28,26 @@ mod simio;
 
 pub fn all_props() -> Vec<Box<dyn framework::Prop>> {
     let mut v: Vec<Box<dyn framework::Prop>> = vec![];
+    let mut hyb: Vec<props_hyb::HybProp> = props_hyb::props().into_iter().chain(props_hyb2::props()).collect();
     for p in props_mem::props() {
-        v.push(Box::new(p));
+        match p.id {
+            // C18 = sequences (Engine S) + thread interleavings (Engine T)
+            "C18" => v.push(Box::new(framework::Composite {
+                id: "C18",
+                parts: vec![Box::new(p), Box::new(props_c02::c18_t())],
+            })),
+            _ => v.push(Box::new(p)),
+        }
     }
-    for p in props_hyb::props() {
-        v.push(Box::new(p));
+    // C17 = hybrid (Engine V) + memory-only (Engine S)
+    if let Some(pos) = hyb.iter().position(|p| p.id == "C17") {
+        let h = hyb.remove(pos);
+        v.push(Box::new(framework::Composite {
+            id: "C17",
+            parts: vec![Box::new(h), Box::new(props_mem::c17_mem())],
+        }));
     }
-    for p in props_hyb2::props() {
+    for p in hyb {
         v.push(Box::new(p));
     }
     v.push(Box::new(props_c10::C10Prop));
@@ -41,8 +55,13 @@ pub fn all_props() -> Vec<Box<dyn framework::Prop>> {
     v.push(Box::new(props_c04::C04Prop));
     v.push(Box::new(props_c03::C03Prop));
     v.push(Box::new(props_c09::C09Prop));
-    v.push(Box::new(props_c16::C16Prop));
-    v.push(Box::new(props_c02::C02Prop));
+    // C16 = re-entrant callbacks (Engine S + lock monitor) + deadlock freedom under threads (Engine T)
+    v.push(Box::new(framework::Composite {
+        id: "C16",
+        parts: vec![Box::new(props_c16::C16Prop), Box::new(props_c02::c16_t())],
+    }));
+    v.push(Box::new(props_c02::c02()));
+    v.push(Box::new(props_c08::C08Prop));
     v
 }
 
